@@ -106,7 +106,7 @@ class RunGuard:
 
 
 # checks whose quick tier is short enough to afford the alt-config pass on every change (total stays <= ~35 s)
-ALT_CONFIG_IN_QUICK = {"C01", "C02", "C07", "C11", "C14", "C15", "C16", "C17", "C19", "C20"}
+ALT_CONFIG_IN_QUICK = {"C01", "C02", "C07", "C15", "C16", "C17", "C19", "C20"}
 
 
 def alt_config_pass(plug, ctx, res):
